@@ -169,6 +169,9 @@ impl<'a, 'tcx> B<'a, 'tcx> {
     fn constant(&self, c: &ConstOperand<'tcx>) -> J {
         let t = c.const_.ty();
         let mut o = vec![("k", s("const")), ("ty", self.ty(t))];
+        if let Some(did) = c.check_static_ptr(self.tcx) {
+            o.push(("static", s(self.cx.path(did))));
+        }
         match t.kind() {
             ty::FnDef(did, args) => {
                 o.push(("fn", callee(self.cx, self.env, *did, args)));
